@@ -25,7 +25,7 @@ impl PtCfg {
         PtCfg {
             lanes,
             cases,
-            max_shrink: 4096,
+            max_shrink: 1500,
         }
     }
 }
